@@ -13,9 +13,10 @@ import (
 func init() { register("C04", checkC04) }
 
 // dataPathModel resolves the anchors of the data path by structure:
-//   reader  = module functions from which a JSON decode call and the JSON-LD Flatten call are both reachable
-//   decode  = (*json.Decoder).Decode / json.Unmarshal;  flatten = (*ld.JsonLdProcessor).Flatten
-//   eval    = (rego.PreparedEvalQuery).Eval;            evalInput = rego.EvalInput
+//
+//	reader  = module functions from which a JSON decode call and the JSON-LD Flatten call are both reachable
+//	decode  = (*json.Decoder).Decode / json.Unmarshal;  flatten = (*ld.JsonLdProcessor).Flatten
+//	eval    = (rego.PreparedEvalQuery).Eval;            evalInput = rego.EvalInput
 type dataPathModel struct {
 	p             *Prog
 	reachesDecode map[*ssa.Function]bool
